@@ -373,6 +373,10 @@ func runDates(o *hx.Opts, res *hx.Result, r *hx.Rand) {
 				fc[3] = fa[3]
 				if e.twelve() && e.localized() && fc == fa && (fa[3]-fb[3]+24)%12 == 0 {
 					class = "envformat-datetime-roundtrip:localized-ampm-marker-not-recognised"
+				} else if g := time.Date(fa[0], time.Month(fa[1]), fa[2], fa[3], fa[4], fa[5], 0, e.loc); fieldsOf(g, e.seconds()) != fa && g.Equal(b) {
+					// the rendered minute (or second) begins inside a gap of the zone: that wall-clock time does not
+					// exist, and the result is exactly what time.Date makes of it
+					class = "envformat-datetime-roundtrip:rendered-time-starts-in-zone-gap"
 				}
 				res.Fail(class, input, fmt.Sprintf("Format gave %q, ToXDateTime gave %s: fields %v, expected %v", fmtTxt, b.In(e.loc).Format(time.RFC3339Nano), fb, fa))
 			}
